@@ -112,6 +112,9 @@ def fixed_pool():
         ('P(">=1") & P("<2")', lambda: P(">=1") & P("<2")),
         ('P(">=1") | P("<2")', lambda: P(">=1") | P("<2")),
         ('P(">=2") & P("<1")', lambda: P(">=2") & P("<1")),
+        # letter case of an === operand (not a version: no range admits it, so nothing else of the pool is affected)
+        ('P("===Release-7")', lambda: P("===Release-7")),
+        ('P("===release-7")', lambda: P("===release-7")),
         ('P("===1.0")', lambda: P("===1.0")),
         ('P("===1.0.0")', lambda: P("===1.0.0")),
         ('Arbitrary("1.0")', lambda: ArbitrarySpecifier("1.0")),
